@@ -6,7 +6,8 @@
    pin the model's primitives to FIPS 180-4 / RFC 4231 / RFC 5869 / RFC 3610 by kernel evaluation. *)
 From DtlsV Require Import Lib.Bytes Gen.Generated Crypto.C10Sha2 Crypto.C10Hmac Crypto.C10Prf
   Crypto.C10PrfSound Crypto.C10Layout Crypto.C10LayoutSound Crypto.C10Hkdf Crypto.C10HkdfSound
-  Crypto.C10Suites Crypto.C10SuitesSound Crypto.C10Aes Crypto.C10Record Crypto.C10Run.
+  Crypto.C10Suites Crypto.C10SuitesSound Crypto.C10Aes Crypto.C10Record Crypto.C10Transcript
+  Crypto.C10TranscriptSound Crypto.C10Run.
 Open Scope N_scope.
 
 (* P_hash yields exactly the requested number of bytes, for every secret, seed and length
@@ -85,6 +86,43 @@ Theorem C10_ecdhe_psk_premaster_injective :
   ecdhe_psk_premaster z psk = ecdhe_psk_premaster z' psk' -> z = z' /\ psk = psk'.
 Proof. exact ecdhe_psk_premaster_injective. Qed.
 Print Assumptions C10_ecdhe_psk_premaster_injective.
+
+(* ---------------- DTLS 1.2 handshake_messages in wire order (live handshake leg) ---------------- *)
+
+(* RFC 6347 4.2.6: every message is hashed with a 12-byte header saying "one fragment" *)
+Theorem C10_hs_unfragmented_layout :
+  forall typ seq body,
+  hs_unfragmented (typ, seq, body) =
+    [typ] ++ be_enc 3 (len body) ++ be_enc 2 seq ++ [0; 0; 0] ++ be_enc 3 (len body) ++ body /\
+  length (hs_unfragmented (typ, seq, body)) = (12 + length body)%nat.
+Proof. exact hs_unfragmented_layout. Qed.
+Print Assumptions C10_hs_unfragmented_layout.
+
+(* RFC 6347 4.2.1: the HelloVerifyRequest and what preceded it are not hashed, everything after it is *)
+Theorem C10_counted_after_hvr :
+  forall pre h post, is_hvr h = true -> no_hvr post -> counted (pre ++ h :: post) = post.
+Proof. exact counted_after_hvr. Qed.
+Print Assumptions C10_counted_after_hvr.
+
+Theorem C10_counted_no_hvr : forall l, no_hvr l -> counted l = l.
+Proof. exact counted_no_hvr. Qed.
+Print Assumptions C10_counted_no_hvr.
+
+(* the hashed byte string determines the messages and their ORDER: an implementation that hashes the
+   same messages in an order different from the wire order hashes different bytes *)
+Theorem C10_handshake_messages_injective :
+  forall l l', no_hvr l -> no_hvr l' -> Forall wm_wf l -> Forall wm_wf l' ->
+  handshake_messages l = handshake_messages l' -> l = l'.
+Proof. exact handshake_messages_injective. Qed.
+Print Assumptions C10_handshake_messages_injective.
+
+Theorem C10_handshake_messages_order_sensitive :
+  forall pre a b post,
+  no_hvr (pre ++ a :: b :: post) -> no_hvr (pre ++ b :: a :: post) ->
+  Forall wm_wf (pre ++ a :: b :: post) -> Forall wm_wf (pre ++ b :: a :: post) -> a <> b ->
+  handshake_messages (pre ++ a :: b :: post) <> handshake_messages (pre ++ b :: a :: post).
+Proof. exact handshake_messages_order_sensitive. Qed.
+Print Assumptions C10_handshake_messages_order_sensitive.
 
 (* ---------------- record protection layouts (also used by C05 and C09) ---------------- *)
 
@@ -254,4 +292,9 @@ Proof. reflexivity. Qed.
 Example C10_example_nonce : nonce_chacha (repeat 255 12) 1 5 = [255;255;255;255; 255;254; 255;255;255;255;255;250].
 Proof. reflexivity. Qed.
 Example C10_example_unified_header : aad13 [] 3 65541 40 = [47; 0;5; 0;40].
+Proof. reflexivity. Qed.
+(* ClientHello(seq 0), HelloVerifyRequest(seq 0), ClientHello(seq 1), ServerHello(seq 1): only the last two count *)
+Example C10_example_handshake_messages :
+  handshake_messages [(1, 0, [7]); (3, 0, [8; 9]); (1, 1, [7; 7]); (2, 1, [5])] =
+  [1; 0;0;2; 0;1; 0;0;0; 0;0;2; 7;7] ++ [2; 0;0;1; 0;1; 0;0;0; 0;0;1; 5].
 Proof. reflexivity. Qed.
